@@ -2095,6 +2095,10 @@ func (c *DnsController) forwardWithDialArg(ctx context.Context, upstream *dns.Up
 
 		respMsg, err := entry.forwarder.ForwardDNS(ctx, data)
 		entry.endUse()
+		if (err == nil || errors.Is(err, ErrDNSTruncated)) && !dnsResponseAnswersQuery(data, respMsg) {
+			// Never hand a client (or the cache) an answer to another question.
+			respMsg, err = nil, ErrDNSQuestionMismatch
+		}
 		if err != nil {
 			// ErrDNSTruncated is a valid DNS protocol signal (response too
 			// large for UDP), not a transport failure.  Propagate the error
